@@ -249,6 +249,8 @@ def build_prestate(eng, c, cd, variant, mi, fn, is_method, is_init, is_static):
 
 def make_glob(spec, name, st):
     from .pyval import PyKey
+    if spec.startswith("ext:"):
+        return st.alloc(Ext(spec[4:]))
     if spec.startswith("map:"):
         vk = spec[4:]
         vs = typespec.SORTS[vk]
@@ -267,6 +269,7 @@ def prove_variant(reg, modules, file, qual, variant, timeout_ms=10000, prefix=""
     if extra_setup:
         extra_setup(eng)
     eng.unit_name = qual + (f"[{variant_label(variant)}]" if variant else "")
+    eng.feas_timeout_ms = getattr(c, "feas_timeout_ms", 3000)
     is_method = "." in qual
     cname = qual.split(".")[0] if is_method else None
     cd = reg.classes.get(cname) if is_method else None
@@ -343,6 +346,8 @@ def prove_variant(reg, modules, file, qual, variant, timeout_ms=10000, prefix=""
                 d["model"] = {"$error": str(ex)}
         if ob.status == "unknown":
             d["reason"] = ob.info.get("reason")
+        if c.probe:
+            d["probe"] = True
         res.obligations.append(d)
     res.inlined = sorted(eng.inlined)
     res.unrolled = sorted(map(list, eng.unrolled))
@@ -363,6 +368,8 @@ def exit_normal(eng, c, cd, s1, pre, names, selfv, rv, raise_conds, is_init, var
     for ln, lv in s1.locals.items():
         if not ln.startswith("$") and lv.k != "poison":
             n2["local_" + ln] = lv
+        elif ln.startswith("$k"):
+            n2["loopk" + ln[2:]] = lv
     for g, src in c.ghost_update.items():
         eng.set_path(g, eng.spec_eval(src, s1, n2, pre), selfv, s1)
     if not check_result_kind(eng, c, s1, rv, names, variant):
